@@ -412,14 +412,12 @@ theorem stepTok_finv (htgt : P.getLast? = some tgt) (T : List Tok) (so : HtmlSt 
       rw [stepTok_other tk ev s out t (by simp [hk, isTagKind])]
       refine finv_more t hc hB hr h1 h2 h3 h4 ?_
       intro hcl
-      rcases hcl.2 with e | e | e <;> (try (rw [hk] at e; cases e))
-      rw [hk] at e; cases e.1
+      rcases hcl.2 with e | e | ⟨e, _⟩ <;> (rw [hk] at e; cases e)
     | other =>
       rw [stepTok_other tk ev s out t (by simp [hk, isTagKind])]
       refine finv_more t hc hB hr h1 h2 h3 h4 ?_
       intro hcl
-      rcases hcl.2 with e | e | e <;> (try (rw [hk] at e; cases e))
-      rw [hk] at e; cases e.1
+      rcases hcl.2 with e | e | ⟨e, _⟩ <;> (rw [hk] at e; cases e)
 
 theorem fold_finv (htgt : P.getLast? = some tgt) : ∀ (ts T : List Tok) (so : HtmlSt × Bytes),
     FInv P tgt c T so → FInv P tgt c (T ++ ts) (ts.foldl (stepTok tk ev) so)
@@ -452,6 +450,46 @@ theorem fold_replace_strong (v : Visitor) (hk : v.kind = .replace) (hb : v.befor
     exact hx.symm
   have := fold_finv tk ev htgt T [] _ h0
   simpa using finv_ledger this
+
+end
+
+/-! ### nothing targeted: the stage is the identity (any visitor) -/
+
+section
+variable (tk : Tokenize) (ev : Bytes → Bytes → Bool)
+
+/-- while no start / self-closing tag carries the name the stage is waiting for, the token loop copies the tokens -/
+theorem fold_untargeted : ∀ (T : List Tok) (s : HtmlSt) (out : Bytes), s.stack = [] → s.leave = none →
+    (∀ t ∈ T, (t.kind = .startTag ∨ t.kind = .selfClosing) → s.enter ≠ some t.name) →
+    T.foldl (stepTok tk ev) (s, out) = (s, out ++ rawsOf T)
+  | [], s, out, _, _, _ => by simp [rawsOf]
+  | t :: T, s, out, hs, hlv, hno => by
+    have hend : ∀ n d, onEnd tk ev s n d = (s, d) := by
+      intro n d
+      rw [onEnd_eq]
+      have htm : topMatches s.stack n = false := by rw [hs]; rfl
+      have hl' : ¬ s.leave = some n := by rw [hlv]; simp
+      simp only [htm, Bool.false_eq_true, if_false, if_neg hl']
+    have hpush : ∀ d, push s out d = (s, out ++ d) := by
+      intro d; unfold push; rw [hs]
+    have hstep : stepTok tk ev (s, out) t = (s, out ++ t.raw) := by
+      cases hk : t.kind with
+      | startTag =>
+        have hst : onStart s t.name t.raw = (s, t.raw) := by
+          rw [onStart_eq, if_neg (hno t (by simp) (Or.inl hk))]
+        rw [stepTok_start tk ev s out t hk, hst]
+        simp only [hend, hpush]
+        split <;> rfl
+      | endTag => rw [stepTok_end tk ev s out t hk, hend, hpush]
+      | selfClosing =>
+        have hst : onStart s t.name t.raw = (s, t.raw) := by
+          rw [onStart_eq, if_neg (hno t (by simp) (Or.inr hk))]
+        rw [stepTok_self tk ev s out t hk, hst]
+        simp only [hend, hpush]
+      | text => rw [stepTok_other tk ev s out t (by simp [hk, isTagKind]), hpush]
+      | other => rw [stepTok_other tk ev s out t (by simp [hk, isTagKind]), hpush]
+    rw [List.foldl_cons, hstep, fold_untargeted T s (out ++ t.raw) hs hlv (fun t' h' => hno t' (by simp [h']))]
+    simp [rawsOf_cons, List.append_assoc]
 
 end
 
